@@ -5523,6 +5523,12 @@ MORE_IN_SET:
         id = (int32) * p++;
 oid_parsing_done:
         /* Done with OID parsing */
+        if (dnEnd - p < 1)
+        {
+            /* The attribute ends right after its OID: no value to read. */
+            psTraceCrypto("Malformed DN attributes 7b\n");
+            return PS_LIMIT_FAIL;
+        }
         stringType = (int32) * p++;
 
         if (getAsnLength(&p, (uint32) (dnEnd - p), &llen) < 0 ||
